@@ -4,7 +4,9 @@
     and VP8 stream theorems in C03/C04, the ALPH chunk theorems in C07; this file
     holds the fixed-width header fields of the two bitstreams and the size guards.) *)
 From Coq Require Import List ZArith.
-From Webp Require Import Base.Res Conform.ConformVp8Hdr.
+From Webp Require Import Base.Res Base.Bytes Conform.ConformVp8Hdr.
+From Webp Require Riff.RiffGrammar.
+From Webp Require Import Riff.WriterModel Riff.WriterTheorems Riff.ParserGrammar.
 From WebpGen Require Consts.
 Open Scope Z_scope.
 
@@ -42,9 +44,23 @@ Print Assumptions C02_pinned_emit_truncates_part0_refuted.
 (** VP8L header: signature, 14-bit width-1 / height-1, alpha bit, version 0. *)
 Theorem C02_vp8l_header_roundtrip : forall w h alpha tl,
   1 <= w <= 16384 -> 1 <= h <= 16384 ->
-  parse_vp8l_header (vp8l_header w h alpha ++ tl) = Ok (w, h, alpha, 0).
+  ConformVp8Hdr.parse_vp8l_header (ConformVp8Hdr.vp8l_header w h alpha ++ tl) = Ok (w, h, alpha, 0).
 Proof. exact vp8l_header_roundtrip. Qed.
 Print Assumptions C02_vp8l_header_roundtrip.
+
+(** The container writer of Encode (encode.go writeRIFF / writeRIFFSimple /
+    writeRIFFExtended) only emits files that the independent RIFF/WebP grammar
+    (written from the container specification) accepts: RIFF size, chunk sizes,
+    padding, chunk order ICCP -> ALPH -> image -> EXIF -> XMP, VP8X flags = exactly
+    the chunks present (incl. the VP8L alpha bit), canvas = bitstream dimensions —
+    for every bitstream whose header declares the picture size, every ALPH payload
+    and every metadata blob within the writer's own size guard. *)
+Theorem C02_writer_output_wf : forall fourcc bs alpha w h icc exif xmp a,
+  writer_inputs_ok fourcc bs alpha w h icc exif xmp a ->
+  bytes_ok bs -> bytes_ok alpha -> bytes_ok icc -> bytes_ok exif -> bytes_ok xmp ->
+  exists file, write_riff fourcc bs alpha w h icc exif xmp = Ok file /\ RiffGrammar.wf file = true.
+Proof. exact writer_output_wf. Qed.
+Print Assumptions C02_writer_output_wf.
 
 (** Tie to the source: the limits the guard uses are the constants of the code. *)
 Theorem C02_limits_match_source :
